@@ -119,6 +119,22 @@ fn run_fd(bytes: &[u8], ctx: &Ctx) -> CaseInfo {
     eval(&p, false, ctx)
 }
 
+/// Lifecycle with hundreds of constraints in the store (subsumption events included) and with
+/// wide finite domains.
+fn run_scale(bytes: &[u8], ctx: &Ctx) -> CaseInfo {
+    let mut s = Source::new(bytes);
+    let thorough = ctx.tier == Tier::Thorough;
+    let (p, tree, label) = if s.flag(150) {
+        (crate::props::c02::decode_scale(&mut s, thorough), true, "scale:many-disequalities")
+    } else {
+        (crate::gen::fd::gen_case_wide(&mut s, thorough).program(), false, "scale:wide-domains")
+    };
+    let mut info = eval(&p, tree, ctx);
+    truncate_sample(&mut info, 400);
+    info.class(label);
+    info
+}
+
 fn fixed_example(ctx: &Ctx) -> CaseInfo {
     // x != 5, [x, y] != [5, 6], [x, y] != [5, 6]   (property text)
     let (x, y) = (Term::Var(0), Term::Var(1));
@@ -149,6 +165,7 @@ pub fn def() -> PropertyDef {
         families: vec![
             Family { name: "tree", max_len: 160, quick: 120_000, thorough: 3_000_000, run: run_tree },
             Family { name: "fd", max_len: 160, quick: 100_000, thorough: 2_000_000, run: run_fd },
+            Family { name: "scale", max_len: 96, quick: 6_000, thorough: 100_000, run: run_scale },
         ],
         fixed: vec![Fixed { name: "property-text-example", run: fixed_example }, Fixed { name: "weaker-then-stronger-then-binding", run: fixed_replace }],
         witnesses: vec![],
